@@ -376,13 +376,13 @@ impl TcpNameserver {
                     /* If we have stopped sending queries, then close down the idle channel to
                      * spare resources on the server side.
                      */
-                    () = tokio::time::sleep_until(last_send_activity + std::time::Duration::from_secs(120)).fuse() => {
+                    () = tokio::time::sleep_until(last_send_activity + tcp_idle_timeout()).fuse() => {
                             self.tcp_teardown(Error::TcpConnection("TCP Connection idle".into()));
                     },
                     /* If the other end isn't replying to us at all (despite us sending new
                      * requests), then close down the connection.
                      */
-                    () = tokio::time::sleep_until(last_recv_activity + std::time::Duration::from_secs(120)).fuse() => {
+                    () = tokio::time::sleep_until(last_recv_activity + tcp_idle_timeout()).fuse() => {
                             self.tcp_teardown(Error::TcpConnection("Timed out waiting for TCP replies".into()));
                     },
                 }
@@ -410,6 +410,20 @@ impl TcpNameserver {
             }
         }
     }
+}
+
+/// How long an upstream TCP connection may stay idle (nothing sent, or nothing received) before it is closed.
+#[cfg(not(erbium_verif))]
+fn tcp_idle_timeout() -> std::time::Duration {
+    std::time::Duration::from_secs(120)
+}
+
+/// Verification hook: the idle time of upstream TCP connections in milliseconds (default: the 120 s above).
+#[cfg(erbium_verif)]
+pub static VERIF_TCP_IDLE_MS: std::sync::atomic::AtomicU64 = std::sync::atomic::AtomicU64::new(120_000);
+#[cfg(erbium_verif)]
+fn tcp_idle_timeout() -> std::time::Duration {
+    std::time::Duration::from_millis(VERIF_TCP_IDLE_MS.load(std::sync::atomic::Ordering::Relaxed))
 }
 
 fn create_outquery(id: u16, in_query: &dnspkt::DNSPkt) -> dnspkt::DNSPkt {
